@@ -317,17 +317,15 @@ class WriterSpec(BfsSpec):
         m.tracks = [st.track]
         data = m.get_midi_data()
         check_bytes("MidiTrack history", data, [st.models if st.tie else st.models[:1]], self.bpm)
-        t = st.track
-        S.outcome((zlib.crc32(data), t.delay, bytes(t.delta_time), t.change_instrument))
+        S.outcome((zlib.crc32(data), len(data)))
 
     def canon(self, st):
         # Everything a later play_* call reads: the pending delta bytes, the accumulated rest ticks,
         # the pending instrument change; bpm is only written.  track_data is included because the
         # oracle judges the whole file: two histories are merged only when they produced identical
         # bytes *and* identical writer state, hence have identical futures.
-        t = st.track
-        return (bytes(t.delta_time), t.delay, bool(t.change_instrument), t.instrument, t.bpm, bytes(t.track_data),
-                engine.deep_key(t))      # plus every other attribute the writer object (or its class) holds
+        # (read through deep_key: every attribute the writer object or its class holds, whatever it is called)
+        return engine.deep_key(st.track)
 
 
 def run_writer_bfs(case):
